@@ -256,8 +256,22 @@ class IntroducerClient(service.Service, Referenceable):
                          parent=lp, level=log.WEIRD, umid="ZAU15Q")
                 # process other announcements that arrived with the bad one
                 continue
+            except Exception as e:
+                # UnknownKeyError, or a key, signature or message that is
+                # not even well-formed: just as bad as a bad signature
+                self.log("malformed inbound announcement (%r): %s" % (e, ann_t,),
+                         parent=lp, level=log.WEIRD, umid="ZAU15R")
+                continue
 
-            self._process_announcement(ann, key_s)
+            try:
+                self._process_announcement(ann, key_s)
+            except Exception as e:
+                # a correctly signed but nonsensical announcement must not
+                # stop us from processing the rest of the batch either
+                self.log("unable to process inbound announcement (%r): %s"
+                         % (e, ann_t,),
+                         parent=lp, level=log.WEIRD, umid="ZAU15S")
+                continue
 
     def _process_announcement(self, ann, key_s):
         precondition(isinstance(key_s, bytes), key_s)
